@@ -31,7 +31,7 @@ package json
 //@   ensures panics ==> typeis(pv, errors.DocumentError) && unbox(pv, errors.DocumentError).code == 301 && unbox(pv, errors.DocumentError).index == s.index - 1 && unbox(pv, errors.DocumentError).hasIndex && unbox(pv, errors.DocumentError).file == s.file
 
 //@ func (*scanner).found(lexType)
-//@   props C05 C06 C14
+//@   props C05 C06 C14 C17
 //@   requires s != nil
 //@   nopanic
 //@   modifies s.finds, s.finds[*]
@@ -46,7 +46,7 @@ package json
 //@   ensures result.code == 301 && result.index == s.index - 1 && result.hasIndex && result.file == s.file && !result.prepared
 
 //@ func (*scanner).shiftFound()
-//@   props C05 C06 C14
+//@   props C05 C06 C14 C17
 //@   requires s != nil && len(s.finds) >= 1
 //@   nopanic
 //@   modifies s.finds, s.finds[*]
@@ -65,7 +65,7 @@ package json
 //@   ensures result == ((lexType == lexeme.LiteralEnd || lexType == lexeme.ArrayItemEnd || lexType == lexeme.ObjectKeyEnd || lexType == lexeme.ObjectValueEnd) && pairType == partner(lexType))
 
 //@ func (*scanner).processFoundLexemeClosingTag(lexType, i)
-//@   props C05 C06 C14
+//@   props C05 C06 C14 C17
 //@   requires s != nil && s.stack != nil && stkDepth(s) >= 1 && isCloseKind(lexType) && partner(lexType) == stkTop(s)
 //@   requires i >= 1 || lexType == lexeme.ObjectEnd || lexType == lexeme.ArrayEnd
 //@   nopanic
@@ -75,7 +75,7 @@ package json
 //@   ensures len(s.stack.vals) == old(len(s.stack.vals)) - 1 && s.stack.vals.$arr == old(s.stack.vals.$arr) && s.stack.vals.$off == old(s.stack.vals.$off)
 
 //@ func (*scanner).processingFoundLexeme(lexType)
-//@   props C05 C06 C14
+//@   props C05 C06 C14 C17
 //@   requires evtOK(s, lexType)
 //@   nopanic
 //@   modifies s.stack.vals, s.stack.vals[*]
@@ -156,16 +156,17 @@ package json
 //@   nopanic
 //@   ensures fresh(result) && nextOK(result) && result.index == 0 && result.file == file && !result.allowTrailingNonSpaceCharacters
 //@   ensures stkDepth(result) == 0 && len(result.finds) == 0 && result.step == stateFoundRootValue
-//@   ensures fresh(result.finds) && fresh(result.stack) && fresh(result.returnToStep)
+//@   ensures fresh(result.finds) && fresh(result.stack) && fresh(result.returnToStep) && result.stack.vals.$arr == 0 && result.returnToStep.vals.$arr == 0
 
 //@ func (*Document).rewind()
-//@   props C05 C11
+//@   props C05 C06 C11 C14
 //@   requires d != nil && d.file != nil
 //@   nopanic
 //@   modifies d.scanner
 //@   ensures fresh(d.scanner) && nextOK(d.scanner) && d.scanner.index == 0 && d.scanner.file == d.file
 //@   ensures d.scanner.allowTrailingNonSpaceCharacters == d.allowTrailingNonSpaceCharacters
 //@   ensures stkDepth(d.scanner) == 0 && len(d.scanner.finds) == 0 && d.scanner.step == stateFoundRootValue
+//@   ensures fresh(d.scanner.finds) && fresh(d.scanner.stack) && fresh(d.scanner.returnToStep) && d.scanner.stack.vals.$arr == 0 && d.scanner.returnToStep.vals.$arr == 0
 
 //@ func (*Document).nextLexeme()
 //@   props C05 C06 C07 C14 C17
@@ -174,11 +175,15 @@ package json
 //@   nopanic
 //@   modifies d.scanner.index, d.scanner.step, d.scanner.finds, d.scanner.finds[*], d.scanner.unfinishedLiteral, d.scanner.returnToStep.vals, d.scanner.returnToStep.vals[*], d.scanner.stack.vals, d.scanner.stack.vals[*]
 //@   ensures err == nil ==> nextOK(d.scanner) && lex.begin <= lex.end && lex.end < d.scanner.dataSize && lex.lexEventType != lexeme.EndTop
+//@   ensures err == nil ==> lex.end + 1 <= d.scanner.index && d.scanner.index <= d.scanner.dataSize + 1 && d.scanner.step != stateFoundRootValue
+//@   ensures err == nil ==> 4 * d.scanner.index - len(d.scanner.finds) > 4 * old(d.scanner.index) - old(len(d.scanner.finds))
+//@   ensures err == nil ==> (d.scanner.finds.$arr == old(d.scanner.finds.$arr) || d.scanner.finds.$arr > old(alloc)) && (d.scanner.returnToStep.vals.$arr == old(d.scanner.returnToStep.vals.$arr) || d.scanner.returnToStep.vals.$arr > old(alloc)) && (d.scanner.stack.vals.$arr == old(d.scanner.stack.vals.$arr) || d.scanner.stack.vals.$arr > old(alloc))
+//@   ensures d.scanner.data == old(d.scanner.data) && d.scanner.file == old(d.scanner.file) && d.scanner.dataSize == old(d.scanner.dataSize)
 //@   ensures err != nil ==> (err == io.EOF || (typeis(err, errors.DocumentError) && unbox(err, errors.DocumentError).hasIndex && unbox(err, errors.DocumentError).index < d.scanner.dataSize && unbox(err, errors.DocumentError).file == d.scanner.file))
 
 //@ func (*Document).check()
-//@   props C05 C07 C11 C17
-//@   requires d != nil && d.file != nil
+//@   props C05 C06 C07 C11 C17
+//@   requires d != nil && d.file != nil && len(d.file.content) <= 1000000000000000
 //@   nopanic
 //@   modifies d.scanner
 //@   ensures fresh(d.scanner) && d.scanner.index == 0 && nextOK(d.scanner) && d.scanner.step == stateFoundRootValue
@@ -186,11 +191,14 @@ package json
 //@   ensures result != nil ==> (unbox(result, errors.DocumentError).code == 203 && !unbox(result, errors.DocumentError).hasIndex) || (unbox(result, errors.DocumentError).hasIndex && unbox(result, errors.DocumentError).index < len(d.file.content))
 //@   ensures result == nil ==> len(d.file.content) >= 1
 //@   loop 0 invariant d.scanner != nil && d.scanner > old(alloc) && nextOK(d.scanner) && d.scanner.index < 18446744073709551615 && d.scanner.file == d.file && d.scanner.dataSize == len(d.file.content)
-//@   loop 0 invariant jsonLexCounter <= d.scanner.index && (jsonLexCounter == 0 ==> d.scanner.step == stateFoundRootValue)
+//@   loop 0 invariant (jsonLexCounter > 0 ==> d.scanner.index >= 1 && d.scanner.dataSize >= 1) && (jsonLexCounter == 0 ==> d.scanner.step == stateFoundRootValue)
+//@   loop 0 invariant jsonLexCounter + len(d.scanner.finds) <= 4 * d.scanner.index && d.scanner.index <= d.scanner.dataSize + 1
+//@   loop 0 invariant d.scanner.finds.$arr > old(alloc) && (d.scanner.returnToStep.vals.$arr == 0 || d.scanner.returnToStep.vals.$arr > old(alloc)) && (d.scanner.stack.vals.$arr == 0 || d.scanner.stack.vals.$arr > old(alloc))
+//@   loop 0 invariant d.scanner.stack > old(alloc) && d.scanner.returnToStep > old(alloc)
 //@   loop 0 invariant d.file == old(d.file) && d.file.content == old(d.file.content)
 
 //@ func (*Document).computeLen()
-//@   props C14 C07 C11
+//@   props C06 C14 C07 C11
 //@   requires d != nil && d.file != nil
 //@   nopanic
 //@   modifies d.scanner
@@ -200,142 +208,142 @@ package json
 //@   ensures err == nil && length > 0 ==> (exists P :: length <= P && P <= len(d.file.content) && (forall k :: length <= k && k < P ==> isWS(d.file.content[k])) && (P == len(d.file.content) || !isWS(d.file.content[P])))
 
 //@ func stateFoundRootValue(s, c)
-//@   props C05 C06 C14
+//@   props C05 C06 C14 C17
 //@   refines stepFunc
 
 //@ func stateFoundObjectKeyBeginOrEmpty(s, c)
-//@   props C05 C06 C14
+//@   props C05 C06 C14 C17
 //@   refines stepFunc
 
 //@ func stateFoundObjectKeyBegin(s, c)
-//@   props C05 C06 C14
+//@   props C05 C06 C14 C17
 //@   refines stepFunc
 
 //@ func stateFoundObjectValueBegin(s, c)
-//@   props C05 C06 C14
+//@   props C05 C06 C14 C17
 //@   refines stepFunc
 
 //@ func stateFoundArrayItemBeginOrEmpty(s, c)
-//@   props C05 C06 C14
+//@   props C05 C06 C14 C17
 //@   refines stepFunc
 
 //@ func stateFoundArrayItemBegin(s, c)
-//@   props C05 C06 C14
+//@   props C05 C06 C14 C17
 //@   refines stepFunc
 
 //@ func stateEndValue(s, c)
-//@   props C05 C06 C14
+//@   props C05 C06 C14 C17
 //@   refines stepFunc
 
 //@ func stateAfterObjectKey(s, c)
-//@   props C05 C06 C14
+//@   props C05 C06 C14 C17
 //@   refines stepFunc
 
 //@ func stateAfterObjectValue(s, c)
-//@   props C05 C06 C14
+//@   props C05 C06 C14 C17
 //@   refines stepFunc
 
 //@ func stateAfterArrayItem(s, c)
-//@   props C05 C06 C14
+//@   props C05 C06 C14 C17
 //@   refines stepFunc
 
 //@ func stateEndTop(s, c)
-//@   props C05 C06 C14
+//@   props C05 C06 C14 C17
 //@   refines stepFunc
 
 //@ func stateInString(s, c)
-//@   props C05 C06 C14
+//@   props C05 C06 C14 C17
 //@   refines stepFunc
 
 //@ func stateInStringEsc(s, c)
-//@   props C05 C06 C14
+//@   props C05 C06 C14 C17
 //@   refines stepFunc
 
 //@ func stateInStringEscU(s, c)
-//@   props C05 C06 C14
+//@   props C05 C06 C14 C17
 //@   refines stepFunc
 
 //@ func stateInStringEscU1(s, c)
-//@   props C05 C06 C14
+//@   props C05 C06 C14 C17
 //@   refines stepFunc
 
 //@ func stateInStringEscU12(s, c)
-//@   props C05 C06 C14
+//@   props C05 C06 C14 C17
 //@   refines stepFunc
 
 //@ func stateInStringEscU123(s, c)
-//@   props C05 C06 C14
+//@   props C05 C06 C14 C17
 //@   refines stepFunc
 
 //@ func stateNeg(s, c)
-//@   props C05 C06 C14
+//@   props C05 C06 C14 C17
 //@   refines stepFunc
 
 //@ func state1(s, c)
-//@   props C05 C06 C14
+//@   props C05 C06 C14 C17
 //@   refines stepFunc
 
 //@ func state0(s, c)
-//@   props C05 C06 C14
+//@   props C05 C06 C14 C17
 //@   refines stepFunc
 
 //@ func stateDot(s, c)
-//@   props C05 C06 C14
+//@   props C05 C06 C14 C17
 //@   refines stepFunc
 
 //@ func stateDot0(s, c)
-//@   props C05 C06 C14
+//@   props C05 C06 C14 C17
 //@   refines stepFunc
 
 //@ func stateE(s, c)
-//@   props C05 C06 C14
+//@   props C05 C06 C14 C17
 //@   refines stepFunc
 
 //@ func stateESign(s, c)
-//@   props C05 C06 C14
+//@   props C05 C06 C14 C17
 //@   refines stepFunc
 
 //@ func stateE0(s, c)
-//@   props C05 C06 C14
+//@   props C05 C06 C14 C17
 //@   refines stepFunc
 
 //@ func stateT(s, c)
-//@   props C05 C06 C14
+//@   props C05 C06 C14 C17
 //@   refines stepFunc
 
 //@ func stateTr(s, c)
-//@   props C05 C06 C14
+//@   props C05 C06 C14 C17
 //@   refines stepFunc
 
 //@ func stateTru(s, c)
-//@   props C05 C06 C14
+//@   props C05 C06 C14 C17
 //@   refines stepFunc
 
 //@ func stateF(s, c)
-//@   props C05 C06 C14
+//@   props C05 C06 C14 C17
 //@   refines stepFunc
 
 //@ func stateFa(s, c)
-//@   props C05 C06 C14
+//@   props C05 C06 C14 C17
 //@   refines stepFunc
 
 //@ func stateFal(s, c)
-//@   props C05 C06 C14
+//@   props C05 C06 C14 C17
 //@   refines stepFunc
 
 //@ func stateFals(s, c)
-//@   props C05 C06 C14
+//@   props C05 C06 C14 C17
 //@   refines stepFunc
 
 //@ func stateN(s, c)
-//@   props C05 C06 C14
+//@   props C05 C06 C14 C17
 //@   refines stepFunc
 
 //@ func stateNu(s, c)
-//@   props C05 C06 C14
+//@   props C05 C06 C14 C17
 //@   refines stepFunc
 
 //@ func stateNul(s, c)
-//@   props C05 C06 C14
+//@   props C05 C06 C14 C17
 //@   refines stepFunc
 
